@@ -1,6 +1,7 @@
 mod bounds;
 mod cmp;
 mod props_bounds;
+mod props_tp;
 mod eval;
 mod gate;
 mod index;
@@ -53,6 +54,10 @@ fn main() {
         "C05" => props::c05(&cx),
         "C06" => props::c06(&cx),
         "C17" => props::c17(&cx),
+        "C07" => props_tp::c07(&cx),
+        "C08" => props_tp::c08(&cx),
+        "C10" => props_tp::c10(&cx),
+        "C18" => props_tp::c18(&cx),
         _ => { eprintln!("unknown property {id}"); 2 }
     };
     std::process::exit(code);
